@@ -62,6 +62,7 @@ type c12Scn struct {
 	cfg    e2eCfg
 	kind   string // file | big | two | resume | archive | dirv3 | empty
 	quick  bool   // part of the quick tier
+	mustOnly bool // quick tier: only the must-have mutants of this scenario
 	root   string
 	tops   []string
 	wire   [2][]byte
@@ -133,6 +134,11 @@ func c12Scenarios(thorough bool) []*c12Scn {
 					// quick tier: both roles x every protocol, alternating encodings; progress on
 					quick := !quiet && ((proto == 0 && bin) || (proto == 2 && !bin) || (proto == 3 && bin) || (proto == 4 && !bin))
 					add(name, "file", quick, e2eCfg{upload: up, proto: proto, binary: bin, quiet: quiet})
+					if !quick && !up && !quiet && proto >= 2 {
+						// the receiving client with a progress display, every protocol >= 2 x both encodings:
+						// in the quick tier for the must-have mutants (negative sizes followed by data)
+						out[len(out)-1].quick, out[len(out)-1].mustOnly = true, true
+					}
 				}
 			}
 		}
@@ -316,7 +322,7 @@ type c12Val struct{ class, text string }
 
 func c12IntVals(orig string) []c12Val {
 	v := []c12Val{
-		{"-1", "-1"}, {"0", "0"}, {"1", "1"}, {"2^31-1", "2147483647"}, {"2^31", "2147483648"}, {"2^31+1", "2147483649"},
+		{"-1", "-1"}, {"-7", "-7"}, {"0", "0"}, {"1", "1"}, {"2^31-1", "2147483647"}, {"2^31", "2147483648"}, {"2^31+1", "2147483649"},
 		{"5e7", "50000000"}, {"2^33", "8589934592"}, {"2^62", "4611686018427387904"}, {"2^63-1", "9223372036854775807"},
 		{"2^63", "9223372036854775808"}, {"-2^63", "-9223372036854775808"}, {"-2^63-1", "-9223372036854775809"},
 		{"digits40", strings.Repeat("9", 40)}, {"nonnum", "12x"}, {"empty", ""}, {"float", "1.5"}, {"exp", "1e3"}, {"plus", "+7"},
@@ -458,6 +464,8 @@ var c12TriggerRe = regexp.MustCompile(`(::TRZSZ:TRANSFER:[SRD]:)(\d+)\.(\d+)\.(\
 
 func c12Mutate(s *c12Scn, role string, msgs []c12Msg, thorough bool) []*c12Mutant {
 	var out []*c12Mutant
+	// the client is the receiving side and draws a progress bar
+	showsProgress := role == "client" && !s.cfg.upload && !s.cfg.quiet
 	for i, m := range msgs {
 		add := func(field, val string, repl ...[]byte) *c12Mutant {
 			mu := &c12Mutant{scn: s, role: role, idx: i, field: field, val: val, msgs: msgs, repl: repl}
@@ -559,7 +567,10 @@ func c12Mutate(s *c12Scn, role string, msgs []c12Msg, thorough bool) []*c12Mutan
 			add(lbl+"-tokens", "slash-only", line(m.typ, "/"))
 		case isInt:
 			for _, v := range c12IntVals(m.payload) {
-				add(lbl, v.class, line(m.typ, v.text))
+				mu := add(lbl, v.class, line(m.typ, v.text))
+				// a negative announced size / count followed by the recorded data, on the receiving
+				// client with a progress display
+				mu.must = showsProgress && (lbl == "SIZE" || lbl == "NUM") && (v.class == "-1" || v.class == "-7" || v.class == "-2^63")
 			}
 		case m.typ == "COMP":
 			for _, v := range []string{"maybe", "TRUE", "1", "truefalse"} {
@@ -599,6 +610,9 @@ func c12Mutate(s *c12Scn, role string, msgs []c12Msg, thorough bool) []*c12Mutan
 				mu := add(jm.field, jm.val, line(m.typ, c12B64z(jm.doc)))
 				if jm.field == "CFG-tmux_pane_width" || jm.field == "HASH-step" || jm.field == "CFG-bufsize" || jm.field == "SUCC-hashack-step" {
 					mu.must = jm.val == "5e7" || jm.val == "2^31-1" || jm.val == "-1" || jm.val == "2^62" || jm.val == "2^33"
+				}
+				if showsProgress && jm.field == "NAME-size" {
+					mu.must = jm.val == "-1" || jm.val == "-7" || jm.val == "-2^63"
 				}
 			}
 			if len(muts) == 0 {
@@ -1132,6 +1146,9 @@ func genHostile(c *ctx) {
 		c.count(fmt.Sprintf("selected-must:%d", len(pick)))
 		for _, i := range perm {
 			m := sel[i]
+			if m.scn.mustOnly {
+				continue
+			}
 			if !seenFR[m.field+m.role] && !m.must {
 				seenFR[m.field+m.role] = true
 				pick = append(pick, m)
@@ -1142,7 +1159,7 @@ func genHostile(c *ctx) {
 				break
 			}
 			m := sel[i]
-			if !m.must && !seenKey[m.key()] {
+			if !m.must && !m.scn.mustOnly && !seenKey[m.key()] {
 				seenKey[m.key()] = true
 				pick = append(pick, m)
 			}
